@@ -43,7 +43,7 @@ def lvalue_base(n):
             return ("pointee",) + inner[1:] if inner else None
         if k == "DeclRefExpr":
             rd = n.get("referencedDecl", {})
-            return ("var", rd.get("name"), rd.get("id"))
+            return ("var", rd.get("_u") or rd.get("name"), rd.get("id"))
         return None
 
 
@@ -196,7 +196,7 @@ def atom_name(n):
             return n["name"]
         return (atom_name(b[0]) + "." if b else "") + n["name"]
     if k == "DeclRefExpr":
-        return n["referencedDecl"].get("name", "?")
+        return n["referencedDecl"].get("_u") or n["referencedDecl"].get("name", "?")
     sub = subscript(n)
     if sub is not None:
         return atom_name(sub[0]) + "[" + repr(poly(sub[1])) + "]"
@@ -278,6 +278,7 @@ class GuardFacts(ir.Client):
                     killed.add(s.base[1])
             if n.get("kind") == "VarDecl":
                 killed.add(n.get("name"))
+                killed.add(n.get("_u"))
         if killed:
             cfg = frozenset(f for f in cfg if not (isinstance(f[0], str) and
                                                     any(self.mentions(f[0], k) for k in killed if k)))
@@ -318,3 +319,147 @@ def const_int(n):
         v = const_int(kids(n)[0])
         return -v if v is not None else None
     return None
+
+
+# ------------------------------------------------------------------------------------------------ canonical text
+def canon(n):
+    """canonical expression text: unique local names, subscript indices in polynomial normal form, no casts"""
+    n = strip(n, casts=True)
+    k = n.get("kind")
+    i = kids(n)
+    sub = subscript(n)
+    if sub is not None:
+        return canon(sub[0]) + "[" + repr(poly(sub[1])) + "]"
+    if k == "MemberExpr":
+        if i and strip(i[0]).get("kind") == "CXXThisExpr":
+            return n["name"]
+        return (canon(i[0]) + ("->" if n.get("isArrow") else ".") if i else "") + n["name"]
+    if k == "DeclRefExpr":
+        rd = n["referencedDecl"]
+        return rd.get("_u") or rd.get("name", "?")
+    if k in ("IntegerLiteral", "FloatingLiteral"):
+        v = n["value"]
+        try:
+            f = Fraction(v)
+            return str(int(f)) if f.denominator == 1 else str(float(f))
+        except Exception:
+            return v
+    if k == "UnaryOperator":
+        if n.get("opcode") == "-" and strip(i[0], casts=True).get("kind") in ("IntegerLiteral", "FloatingLiteral"):
+            return "-" + canon(i[0])
+        return (canon(i[0]) + n["opcode"]) if n.get("isPostfix") else n["opcode"] + "(" + canon(i[0]) + ")"
+    if k in ("BinaryOperator", "CompoundAssignOperator"):
+        return "(" + canon(i[0]) + " " + n["opcode"] + " " + canon(i[1]) + ")"
+    if k in ("CallExpr", "CXXMemberCallExpr"):
+        return canon(i[0]) + "(" + ", ".join(canon(c) for c in i[1:]) + ")"
+    if k == "CXXOperatorCallExpr":
+        return str(name_of(i[0])) + "(" + ", ".join(canon(c) for c in i[1:]) + ")"
+    if k == "CXXBoolLiteralExpr":
+        return "true" if n.get("value") else "false"
+    return text(n)
+
+
+def cfacts(cond, positive):
+    """canonical facts of a condition: list of (canonical text, polarity); a != b is (a == b, False);
+    relational tests are normalised to  a < b / a <= b  with polarity"""
+    c = strip(cond)
+    k = c.get("kind")
+    if k == "UnaryOperator" and c.get("opcode") == "!":
+        return cfacts(kids(c)[0], not positive)
+    if k == "BinaryOperator" and c.get("opcode") == "&&" and positive:
+        return cfacts(kids(c)[0], True) + cfacts(kids(c)[1], True)
+    if k == "BinaryOperator" and c.get("opcode") == "||" and not positive:
+        return cfacts(kids(c)[0], False) + cfacts(kids(c)[1], False)
+    if k == "BinaryOperator" and c.get("opcode") in ("==", "!=", "<", "<=", ">", ">="):
+        l, r = canon(kids(c)[0]), canon(kids(c)[1])
+        op = c["opcode"]
+        if op == "==":
+            return [("%s == %s" % (l, r), positive)]
+        if op == "!=":
+            return [("%s == %s" % (l, r), not positive)]
+        if op == "<":
+            return [("%s < %s" % (l, r), positive)]
+        if op == "<=":
+            return [("%s <= %s" % (l, r), positive)]
+        if op == ">":
+            return [("%s < %s" % (r, l), positive)]
+        if op == ">=":
+            return [("%s <= %s" % (r, l), positive)]
+    if k in ("BinaryOperator",) and c.get("opcode") in ("&&", "||"):
+        return []
+    return [("%s" % canon(c), positive)]   # truthiness of a value:  (x, True) means x != 0
+
+
+class CanonFacts(GuardFacts):
+    """GuardFacts with canonical, polynomial-normalised fact texts"""
+
+    def assume(self, cond, positive, cfg):
+        if isinstance(cond, tuple):
+            _, subj, label = cond
+            if label is None:
+                return cfg
+            return cfg | {("%s == %s" % (canon(subj), canon(label)), True)}
+        return cfg | frozenset(cfacts(cond, positive))
+
+
+def canon_facts(fn_body, on_atom=None, on_cond=None, gen=None, init=frozenset()):
+    cl = CanonFacts(on_atom, on_cond, gen)
+    eng = ir.Engine(cl, "must")
+    return eng.run(ir.cx_to_ir(fn_body), init)
+
+
+def local_facts(root, target):
+    """facts established *inside one expression* on the way from root down to target: arms of ?: and the
+    right operands of && / ||"""
+    path = []
+
+    def find(n):
+        if n is target:
+            return True
+        for c in kids(n):
+            if find(c):
+                path.append((n, c))
+                return True
+        return False
+    if not find(root):
+        return []
+    out = []
+    for parent, child in path:
+        k = parent.get("kind")
+        pk = kids(parent)
+        if k == "ConditionalOperator":
+            if child is pk[1]:
+                out += cfacts(pk[0], True)
+            elif child is pk[2]:
+                out += cfacts(pk[0], False)
+        elif k == "BinaryOperator" and parent.get("opcode") == "&&" and child is pk[1]:
+            out += cfacts(pk[0], True)
+        elif k == "BinaryOperator" and parent.get("opcode") == "||" and child is pk[1]:
+            out += cfacts(pk[0], False)
+    return out
+
+
+def is_nonzero_fact(facts, subject):
+    """facts entail subject != 0"""
+    return (subject, True) in facts or ("%s == 0" % subject, False) in facts or ("0 == %s" % subject, False) in facts \
+        or ("0 < %s" % subject, True) in facts
+
+
+def is_positive_fact(facts, subject):
+    """facts entail subject > 0"""
+    if ("0 < %s" % subject, True) in facts or ("%s <= 0" % subject, False) in facts:
+        return True
+    for (t, pol) in facts:
+        if not isinstance(t, str):
+            continue
+        # c < subject / c <= subject with a positive constant
+        for op in (" < ", " <= "):
+            if t.endswith(op + subject) and pol:
+                lhs = t[: -len(op + subject)]
+                try:
+                    v = float(lhs)
+                    if v > 0 or (v == 0 and op == " < "):
+                        return True
+                except ValueError:
+                    pass
+    return False
